@@ -110,6 +110,7 @@ class BX:
             'sigma=2,L=2,pal=sgn,stretch=130,pd=min,nf=1,maxn=3',
             'sigma=3,L=2,pal=abc,stretch=1,pd=min,nf=1,maxn=3',
             'sigma=2,L=2,pal=abc,stretch=1,pd=min,nf=1,maxn=2,pre=126+127+128',
+            'sigma=2,L=2,pal=abc,stretch=1,pd=minb,nf=1,maxn=2,pre=16382+16383+16384,kinds=PFC+RPFC+HTFC+HHTFC+RPHTFC',
             'sigma=2,L=4,pal=abc,stretch=1,pd=min,nf=1,maxn=3,kinds=RPDAC+HASHRPF+HASHRPDAC+RPFC',
             # ramps: every cardinality 1..62 along the lexicographic and the shortlex order of U(2,5) (size relations:
             # word/table/bucket boundaries, grammars with many rules, full decoding-table chunks)
